@@ -37,7 +37,7 @@ ProjStore(js) ==
     [x \in {<<e.db, e.key>> : e \in Range(js)} |->
         LET e == CHOOSE e \in Range(js) : e.db = x[1] /\ e.key = x[2] IN Ent(ProjVal(e.v), e.d)]
 
-Outcome(e, D) == Exec([S |-> st, now |-> e.now, db |-> e.db, D |-> D], e.cmd)
+Outcome(e, D) == Exec([S |-> st, now |-> e.now, db |-> e.db, D |-> D], e.cmd, e.r)
 
 Matches(e, D) ==
     LET o == Outcome(e, D) IN
